@@ -6,7 +6,7 @@
     PARTIAL: the round-trip theorem parse(print c) = abs c is proved here for the stream-selector
     sub-grammar with an unbounded number of matchers; for the rest of the grammar it is established by the
     correspondence against generator-computed expectations, not by a theorem (see DESIGN.md). *)
-From LogQLV Require Import Base.Bytes Base.FloatX Model.Tables Model.Syntax Model.Parser Proofs.ParserP Proofs.PredP Proofs.PipelineP Proofs.LogRangeP Proofs.QueryP Proofs.UnwrapP Proofs.VecParamP Model.Lexer Proofs.LexerP Proofs.LexerTightP Proofs.LexParseP.
+From LogQLV Require Import Base.Bytes Base.FloatX Model.Tables Model.Syntax Model.Parser Proofs.ParserP Proofs.PredP Proofs.PipelineP Proofs.LogRangeP Proofs.QueryP Proofs.UnwrapP Proofs.VecParamP Proofs.QuantileP Proofs.BinRangeP Model.Lexer Proofs.LexerP Proofs.LexerTightP Proofs.LexParseP.
 
 (** every selector {l1 op1 "v1", ..., ln opn "vn"} with any number of matchers, all four operators, any value bytes (regex
     values that compile) and any label names -- whether the lexer classifies a name as Ident or as a keyword (by, on, json,
@@ -159,6 +159,53 @@ Print Assumptions vec_agg_parse.
     (unwrap with or without a conversion function, optional grouping after the operand; op and grouping as validate()
     admits them: [range_validate o None g true]) denotes exactly that operation, unwrap, range, offset and grouping.
     [chain_mid] is [chain_ok] without the end-of-pipeline condition: the pipeline stops in front of `| unwrap`. *)
+(** ... and with a parameter:  quantile_over_time ( 0.99 , {selector} stages | unwrap conv(l) [ 5m ] ) by ( a )  -- [ptxt] is the text of the
+    number token and [pv] what strconv.ParseFloat read from it *)
+Theorem unwrap_agg_param_parse :
+  forall (anch : bytes -> bool) (re_names : bytes -> option (list bytes)) (cls : bytes -> ttype) (o : rangeop) (ptxt : bytes) (pv : float)
+         (sel : list matcher) (sts : list stage) (cv l rtxt : bytes) (rns : Z) (off : option (bytes * Z)) (g : option grouping),
+  range_validate o (Some pv) g true = true ->
+  Forall (wf_lmatcher anch cls) sel -> Forall (fun m => ttype_eqb (cls (m_label m)) TCloseBrace = false) sel ->
+  chain_mid anch re_names sts (unwrap_tail cv l rtxt rns off (plain TCloseParen (spelling TCloseParen) :: print_opt_grouping g)) ->
+  wf_unwrap cv ->
+  parse_tokens (print_unwrap_agg_p anch re_names cls o ptxt pv sel sts cv l rtxt rns off g) =
+    Parsed (ERange o (unwrap_lr sel sts cv l rns off) (Some pv) g).
+Proof. exact unwrap_agg_param_lemma. Qed.
+Print Assumptions unwrap_agg_param_parse.
+
+Example quantile_example :
+  let anch := fun _ : bytes => true in
+  let rn := fun _ : bytes => Some (@nil bytes) in
+  let sel := [ {| m_label := ["a"%byte]; m_op := OpEq; m_value := ["x"%byte] |} ] in
+  let m5 := ["5"%byte; "m"%byte] in
+  let g := Some {| g_labels := [["a"%byte]]; g_without := false |} in
+  range_validate RangeOpQuantile (Some 0.5%float) g true = true /\
+  parse_tokens (print_unwrap_agg_p anch rn (fun _ => TIdent) RangeOpQuantile ["0"%byte; "."%byte; "5"%byte] 0.5%float sel [SLogfmt [] []] [] ["n"%byte] m5 300000000000 None g) =
+    Parsed (ERange RangeOpQuantile (unwrap_lr sel [SLogfmt [] []] [] ["n"%byte] 300000000000 None) (Some 0.5%float) g).
+Proof. split; vm_compute; reflexivity. Qed.
+
+(** one binary operation between two range aggregations, for each of the fifteen operators of metric expressions (no modifier):
+    rate ( .. ) / rate ( .. ),  count_over_time ( .. ) > count_over_time ( .. ),  a and b,  a or b,  a unless b  denote
+    EBin left op (empty modifier) right.  (Chains of several operators are C13's subject: precedence, and the known finding D11.) *)
+Theorem bin_range_parse :
+  forall (anch : bytes -> bool) (re_names : bytes -> option (list bytes)) (cls : bytes -> ttype) (op : binop) (a b : operand),
+  metric_op op = true ->
+  wf_operand anch re_names cls a (plain (bin_tok op) (spelling (bin_tok op)) :: print_operand anch re_names cls b) -> wf_operand anch re_names cls b [] ->
+  parse_tokens (print_bin anch re_names cls op a b) = Parsed (EBin (operand_expr a) op empty_mod (operand_expr b)).
+Proof. exact bin_range_parse_lemma. Qed.
+Print Assumptions bin_range_parse.
+
+Example bin_range_example :
+  let anch := fun _ : bytes => true in
+  let rn := fun _ : bytes => Some (@nil bytes) in
+  let sel := [ {| m_label := ["a"%byte]; m_op := OpEq; m_value := ["x"%byte] |} ] in
+  let m5 := ["5"%byte; "m"%byte] in
+  let a := {| a_op := RangeOpRate; a_sel := sel; a_sts := [SLine OpEq ["e"%byte] false]; a_rtxt := m5; a_rns := 300000000000; a_off := None |} in
+  let b := {| a_op := RangeOpCount; a_sel := sel; a_sts := []; a_rtxt := m5; a_rns := 300000000000; a_off := None |} in
+  parse_tokens (print_bin anch rn (fun _ => TIdent) OpDiv a b) = Parsed (EBin (operand_expr a) OpDiv empty_mod (operand_expr b)) /\
+  parse_tokens (print_bin anch rn (fun _ => TIdent) OpUnless a b) = Parsed (EBin (operand_expr a) OpUnless empty_mod (operand_expr b)).
+Proof. split; vm_compute; reflexivity. Qed.
+
 (** vector aggregations with the operand directly in parentheses, with or without a leading integer parameter:
     topk ( 3 , rate ( .. ) ), bottomk ( 1 , .. ), sort ( .. ), sort_desc ( .. ), sum ( .. )  -- [k] is the parameter token's text and
     the integer strconv.Atoi read from it; validate() decides which operators take one *)
